@@ -18,6 +18,7 @@ package subscribe
 
 import (
 	"sync"
+	"sync/atomic"
 )
 
 // TypeStats is the container of client side statistics for a particular
@@ -60,7 +61,11 @@ func (s *stats) allTypeStats() map[string]TypeStats {
 	s.mu.Lock()
 	defer s.mu.Unlock()
 	for t, st := range s.types {
-		m[t] = *st
+		// The counters are updated atomically by the RPC goroutines, without s.mu.
+		m[t] = TypeStats{
+			ActiveSubscriptionCount: atomic.LoadInt64(&st.ActiveSubscriptionCount),
+			SubscriptionCount:       atomic.LoadInt64(&st.SubscriptionCount),
+		}
 	}
 	return m
 }
@@ -70,7 +75,10 @@ func (s *stats) allTargetStats() map[string]TargetStats {
 	s.mu.Lock()
 	defer s.mu.Unlock()
 	for t, st := range s.targets {
-		m[t] = *st
+		m[t] = TargetStats{
+			ActiveSubscriptionCount: atomic.LoadInt64(&st.ActiveSubscriptionCount),
+			SubscriptionCount:       atomic.LoadInt64(&st.SubscriptionCount),
+		}
 	}
 	return m
 }
@@ -80,7 +88,11 @@ func (s *stats) allClientStats() map[string]ClientStats {
 	s.mu.Lock()
 	defer s.mu.Unlock()
 	for t, st := range s.clients {
-		m[t] = *st
+		m[t] = ClientStats{
+			Target:        st.Target,
+			CoalesceCount: atomic.LoadInt64(&st.CoalesceCount),
+			QueueSize:     atomic.LoadInt64(&st.QueueSize),
+		}
 	}
 	return m
 }
